@@ -78,7 +78,8 @@ class Sched:
         self.wall_s = wall_s
         self._mu = _real_threading.Lock()     # protects nothing under the baton; used for the wall guard
         self._done = _real_threading.Event()
-        self.listeners = []
+        self.force_next = None
+        self.thread_init = None      # called at the start of every simulated thread (line tracer)
 
     # ---------------------------------------------------------------- trace
     def emit(self, *ev):
@@ -100,6 +101,8 @@ class Sched:
                 if self.aborting:
                     raise SimAbort()
                 t.state = "running"
+                if self.thread_init:
+                    self.thread_init(t)
                 t.result = fn()
             except SimAbort:
                 pass
@@ -140,6 +143,9 @@ class Sched:
             if self.aborting:
                 return alive[0]
             run = [t for t in alive if self._runnable(t)]
+            if self.force_next is not None and self.force_next in run:
+                t, self.force_next = self.force_next, None
+                return t
             if run:
                 if len(run) == 1:
                     return run[0]
@@ -411,7 +417,8 @@ class Sched:
                     c = [k.fileobj.sim_next_time() for k in self._reg.values()]
                     c = [x for x in c if x is not None]
                     return min(c) if c else None
-                s.emit("select", None if timeout is None else ticks_of(timeout))
+                unread = sum(getattr(k.fileobj, "unread_arrived", lambda: 0)() for k in self._reg.values())
+                s.emit("select", None if timeout is None else ticks_of(timeout), bool(self._ready()), unread)
                 s.block(lambda: bool(self._ready()), dl, nt)
                 return self._ready()
 
@@ -467,3 +474,57 @@ class Patch:
 
 
 _MISSING = object()
+
+
+class LinePreempt:
+    """line-level preemption of the real code (C14 second-thread close): the `k`-th executed line of
+    websocket/*.py in the main simulated thread triggers `action()` and yields to the other runnable
+    threads (they run until they block; then main continues).  `k` counts from 0; `lines` records how
+    many lines were executed so that a caller can enumerate every k."""
+
+    def __init__(self, sched, k, action=None, prefix=None):
+        import os
+        self.s = sched
+        self.k = k
+        self.action = action
+        self.count = 0
+        self.fired_at = None
+        self.prefix = prefix
+
+    def _local(self, frame, event, arg):
+        if event == "line" and self.s.current is not None and self.s.current.name == "main" and not self.s.aborting:
+            n = self.count
+            self.count += 1
+            if n == self.k:
+                self.fired_at = (frame.f_code.co_filename.rsplit("/", 1)[-1], frame.f_lineno)
+                if self.action:
+                    self.action()
+                # hand the baton to whoever else can run; main stays runnable
+                me = self.s.current
+                others = [t for t in self.s.threads if t is not me and t.state != "dead" and self.s._runnable(t)]
+                if others:
+                    me.state = "ready"
+                    self.s.force_next = others[0]
+                    self.s._handover(me)
+                    me.state = "running"
+                    if self.s.aborting:
+                        raise SimAbort()
+        return self._local
+
+    def _global(self, frame, event, arg):
+        fn = frame.f_code.co_filename
+        if self.prefix and fn.startswith(self.prefix):
+            return self._local
+        return None
+
+    def install(self):
+        import sys
+        tracer = self
+
+        def init(t):
+            if t.name == "main":
+                sys.settrace(tracer._global)
+        self.s.thread_init = init
+
+    def remove(self):
+        self.s.thread_init = None
